@@ -1,6 +1,7 @@
 CONSTANT Agents <- MCAgents
 CONSTANT WaitsForCopy = FALSE
+CONSTANT SharedLock = FALSE
 SPECIFICATION FairSpec
-INVARIANTS Inv_Exited Inv_Reaped Inv_Order Export
-PROPERTIES Returns ReapedDespiteHolders
+INVARIANTS Inv_Exited Inv_Reaped Inv_Order Inv_CloseNeverWaitsOnWriter Export
+PROPERTIES Returns ReapedDespiteHolders WriterReleased
 CHECK_DEADLOCK FALSE
